@@ -236,22 +236,32 @@ impl RaAdvService {
                 .dns_servers
                 .iter()
                 .filter_map(|ip| match ip {
-                    std::net::IpAddr::V6(ip6) if *ip6 == std::net::Ipv6Addr::UNSPECIFIED => {
-                        Some(self6)
-                    }
                     std::net::IpAddr::V6(ip6) => Some(*ip6),
                     _ => None,
                 })
                 .collect(),
-        ) {
+        ) && !v.is_empty()
+        {
+            /* An option without any addresses is not valid (RFC8106). */
             options.add_option(icmppkt::NDOptionValue::RecursiveDnsServers((
                 intf.rdnss_lifetime
                     .always_unwrap_or(3 * DEFAULT_MAX_RTR_ADV_INTERVAL),
-                v.clone(),
+                /* $self6 stands for the address of this interface */
+                v.iter()
+                    .map(|ip6| {
+                        if *ip6 == std::net::Ipv6Addr::UNSPECIFIED {
+                            self6
+                        } else {
+                            *ip6
+                        }
+                    })
+                    .collect(),
             )))
         }
 
-        if let Some(v) = &intf.dnssl.unwrap_or(config.dns_search.clone()) {
+        if let Some(v) = &intf.dnssl.unwrap_or(config.dns_search.clone())
+            && !v.is_empty()
+        {
             options.add_option(icmppkt::NDOptionValue::DnsSearchList((
                 intf.dnssl_lifetime
                     .always_unwrap_or(3 * DEFAULT_MAX_RTR_ADV_INTERVAL),
